@@ -1031,6 +1031,22 @@ func (t *TS) step(s *State, in ssa.Instruction) []*State {
 		if a := t.eval(s, x.X); a.K != KTop {
 			s.Env[x] = a
 		}
+	case *ssa.MakeInterface:
+		// a transaction or an inode handed on as a value of an interface type is still that object
+		switch a := t.eval(s, x.X); a.K {
+		case KTxn, KAtxn, KInode, KISlice, KNil:
+			s.Env[x] = a
+		}
+	case *ssa.ChangeInterface:
+		if a := t.eval(s, x.X); a.K != KTop {
+			s.Env[x] = a
+		}
+	case *ssa.TypeAssert:
+		if !x.CommaOk {
+			if a := t.eval(s, x.X); a.K != KTop {
+				s.Env[x] = a
+			}
+		}
 	case *ssa.Convert:
 		if a := t.eval(s, x.X); a.K == KInt || a.K == KNotInt {
 			if isTrackedType(x.Type()) {
@@ -1106,10 +1122,31 @@ func (t *TS) call(s *State, call *ssa.Call) []*State {
 			callee = tf
 		}
 	}
-	if callee != nil && callee.Synthetic != "" {
-		// the wrapper of a terminator taken as a method expression, known on this path
-		if tf := terminatorOf(V, callee); tf != nil {
-			callee = tf
+	var recvArgs []AV // receiver(s) that do not travel in cc.Args: bound method values, interface calls
+	if callee == nil && cc.IsInvoke() {
+		// a call through an (unexported) interface with one implementation in the program: that method
+		if cands := t.c.P.Callees(call); len(cands) == 1 && IsRepoFunc(cands[0]) {
+			callee = cands[0]
+			recvArgs = []AV{t.eval(s, cc.Value)}
+		}
+	}
+	if callee != nil && callee.Synthetic != "" && callee.Parent() == nil {
+		// the compiler-made wrapper of a method taken as a value: "(*T).M" (the receiver is the first argument)
+		// or "x.M" (the receiver is bound in the closure)
+		if target := wrappedMethod(callee); target != nil {
+			if len(callee.FreeVars) == 1 {
+				a := fav
+				if a.K != KFunc {
+					a = t.eval(s, cc.Value)
+				}
+				if a.K == KFunc && len(a.Binds) == 1 {
+					recvArgs = []AV{a.Binds[0]}
+					callee = target
+					fav = AV{}
+				}
+			} else if len(callee.FreeVars) == 0 {
+				callee = target
+			}
 		}
 	}
 	if callee != nil && callee.Parent() != nil && fav.K != KFunc {
@@ -1127,6 +1164,9 @@ func (t *TS) call(s *State, call *ssa.Call) []*State {
 			}
 		}
 		args = append(args, av)
+	}
+	if len(recvArgs) > 0 {
+		args = append(append([]AV{}, recvArgs...), args...)
 	}
 	// ---- primitives of the transaction API
 	if callee != nil {
@@ -1529,6 +1569,28 @@ func liveIn(fn *ssa.Function) []map[ssa.Value]bool {
 	}
 	liveMemo[fn] = in
 	return in
+}
+
+// wrappedMethod: the method a compiler-made wrapper (thunk or bound-method
+// closure) forwards to, when it consists of exactly that one call.
+func wrappedMethod(fn *ssa.Function) *ssa.Function {
+	if fn == nil || fn.Synthetic == "" || fn.Blocks == nil {
+		return nil
+	}
+	var found *ssa.Function
+	n := 0
+	for _, b := range fn.Blocks {
+		for _, in := range b.Instrs {
+			if ci, ok := in.(ssa.CallInstruction); ok {
+				n++
+				found = ci.Common().StaticCallee()
+			}
+		}
+	}
+	if n == 1 {
+		return found
+	}
+	return nil
 }
 
 // terminatorOf: fn is a transaction terminator, or the synthetic wrapper the
